@@ -193,17 +193,22 @@ func (fr *Frame) doCall(cc *ssa.CallCommon, site ssa.Instruction, args []Term, c
 	// ---- site-specific requires from the enclosing contract (top frame's contract only
 	// applies to calls syntactically in the top function or in inlined closures of it)
 	var sites []*CallSpec
+	ordKey := "call:" + firstOr(names, "?")
+	ord := top.callOrd[ordKey]
+	top.callOrd[ordKey] = ord + 1
 	if fc := fr.siteContract(); fc != nil {
+		// a pattern `name#k` addresses the k-th call of that name (in order of first execution)
+		var onames []string
+		for _, n := range names {
+			onames = append(onames, n, fmt.Sprintf("%s#%d", n, ord))
+		}
 		for _, cs := range fc.Calls {
-			if matchPattern(cs.Pattern, names) {
+			if matchPattern(cs.Pattern, onames) {
 				sites = append(sites, cs)
 			}
 		}
 	}
 	argBind := fr.argBindings(cc, args)
-	ordKey := "call:" + firstOr(names, "?")
-	ord := top.callOrd[ordKey]
-	top.callOrd[ordKey] = ord + 1
 	for _, cs := range sites {
 		for _, rq := range cs.Requires {
 			e := fr.env(site.Block())
@@ -688,6 +693,13 @@ func (fr *Frame) modifiesOf(fcx *FuncContract, penv *Env) []string {
 		e.pkg = c.P.typesPkg(fcx.PkgPath)
 	}
 	for _, m := range fcx.Modifies {
+		if strings.HasPrefix(m, "except ") {
+			// "all, except T.f": everything may change but the listed component
+			for _, r := range fr.resolveMod(strings.TrimSpace(m[7:]), e) {
+				out = append(out, "except:"+r)
+			}
+			continue
+		}
 		isNew := false
 		if strings.HasPrefix(m, "new ") {
 			isNew = true
@@ -825,7 +837,18 @@ func (fr *Frame) havocSet(mods []string) {
 		}
 	}
 	if all {
+		keep := map[string]Term{}
+		for _, m := range mods {
+			if strings.HasPrefix(m, "except:") {
+				if srt, ok := c.compSort[m[7:]]; ok {
+					keep[m[7:]] = c.comp(fr.st, m[7:], srt)
+				}
+			}
+		}
 		fr.havocAll()
+		for n, t := range keep {
+			fr.st.comps[n] = t
+		}
 		return
 	}
 	sort.Strings(mods)
@@ -1541,6 +1564,13 @@ func runTop(c *Ctx, fn *ssa.Function, fc *FuncContract) (err error) {
 				if strings.HasPrefix(k, "call:") && matchPattern(cs.Pattern, []string{k[5:]}) {
 					used = true
 				}
+				if strings.HasPrefix(k, "call:") {
+					for n := 0; n < fr.callOrd[k]; n++ {
+						if matchPattern(cs.Pattern, []string{fmt.Sprintf("%s#%d", k[5:], n)}) {
+							used = true
+						}
+					}
+				}
 			}
 			if !used && !c.dry {
 				// pattern may match through an alternative name; checked in matchedPatterns
@@ -1599,7 +1629,13 @@ func (fr *Frame) checkFrame(ret *ssa.Return) {
 	declaredAt := map[string][]Term{}
 	eenv := fr.env(fr.fn.Blocks[0])
 	eenv.st = fr.entry
-	for _, m := range fr.modifiesOf(fc, eenv) {
+	mods := fr.modifiesOf(fc, eenv)
+	for _, m := range mods {
+		if strings.HasPrefix(m, "except:") {
+			c.unsupported("modifies ... except is only available on trusted contracts (frame of " + fc.Name + " not checkable)")
+		}
+	}
+	for _, m := range mods {
 		if m == "all" {
 			return
 		}
